@@ -46,10 +46,18 @@ GRID = (0, 1, 2)
 # oracle
 # ---------------------------------------------------------------------------------------------------------------
 def counts(pred, y):
-  tp = int(np.sum((pred == 1) & (y == 1)))
-  fp = int(np.sum((pred == 1) & (y == -1)))
-  tn = int(np.sum((pred == -1) & (y == -1)))
-  fn = int(np.sum((pred == -1) & (y == 1)))
+  """confusion counts (tp, fp, tn, fn) of a +-1 prediction sequence against +-1 labels (plain integers)"""
+  tp = fp = tn = fn = 0
+  for p, t in zip(pred, y):
+    if p == 1:
+      if t == 1:
+        tp += 1
+      else:
+        fp += 1
+    elif t == 1:
+      fn += 1
+    else:
+      tn += 1
   return tp, fp, tn, fn
 
 
@@ -71,28 +79,30 @@ def criterion(strategy, kw, c):
   return tpr >= r, tnr
 
 
-def check_calibrated(est, pairs, y, strategy, kw):
-  """the estimator has just been calibrated on (pairs, y): -> None or (clause, observed)"""
-  y = np.asarray(y)
-  pred = np.asarray(est.predict(pairs))
-  dist = np.asarray(est.pair_distance(pairs))
-  if pred.shape != y.shape or not np.all((pred == 1) | (pred == -1)):
-    return '%s-optimal' % strategy, 'predict returned %r' % (pred.tolist(),)
+def check_calibrated(est, pairs, y, strategy, kw, dist=None):
+  """the estimator has just been calibrated on (pairs, y): -> None or (clause, observed).
+  `dist`: the learned distances of the pairs when they are known by construction, else read from pair_distance"""
+  y = [int(v) for v in y]
+  pred = np.asarray(est.predict(pairs)).tolist()
+  if dist is None:
+    dist = np.asarray(est.pair_distance(pairs)).tolist()
+  if len(pred) != len(y) or any(p not in (1, -1) for p in pred):
+    return '%s-optimal' % strategy, 'predict returned %r' % (pred,)
   ok, got = criterion(strategy, kw, counts(pred, y))
   best, best_c = None, None
-  for c in [None] + sorted(set(dist.tolist())):
-    p = np.where(dist <= c, 1, -1) if c is not None else -np.ones(len(y), dtype=int)
+  for c in [None] + sorted(set(dist)):
+    p = [1 if (c is not None and d <= c) else -1 for d in dist]
     adm, v = criterion(strategy, kw, counts(p, y))
     if adm and (best is None or v > best):
       best, best_c = v, c
   name = {'accuracy': 'accuracy', 'f_beta': 'F-beta', 'max_tpr': 'TPR', 'max_tnr': 'TNR'}[strategy]
   if best is not None and not ok:
     return '%s-optimal' % strategy, ('threshold_=%r violates the constraint %s >= %s although the cut-off %s is admissible (%s %s)'
-                                     % (est.threshold_, 'TNR' if strategy == 'max_tpr' else 'TPR', kw['min_rate'],
+                                     % (float(est.threshold_), 'TNR' if strategy == 'max_tpr' else 'TPR', kw['min_rate'],
                                         'reject-all' if best_c is None else 'distance <= %r' % best_c, name, best))
   if best is not None and got != best:
     return '%s-optimal' % strategy, 'threshold_=%r attains %s %s; the cut-off %s attains %s' % (
-        est.threshold_, name, got, 'reject-all' if best_c is None else 'distance <= %r' % best_c, best)
+        float(est.threshold_), name, got, 'reject-all' if best_c is None else 'distance <= %r' % best_c, best)
   return None
 
 
@@ -109,7 +119,7 @@ def check_instance(est, y, dists, strategy, kw):
     warnings.simplefilter('ignore')
     try:
       est.calibrate_threshold(pairs, yy, strategy=strategy, **kw)
-      return check_calibrated(est, pairs, yy, strategy, kw)
+      return check_calibrated(est, pairs, yy, strategy, kw, dist=[float(d) for d in dists])
     except Exception as e:
       return '%s-optimal' % strategy, 'raised %s: %s' % (type(e).__name__, str(e)[:200])
 
@@ -125,20 +135,36 @@ def label_vectors(n):
   return [l for l in itertools.product((-1, 1), repeat=n) if -1 in l and 1 in l]
 
 
+ONE_PER_STRATEGY = [STRATEGIES[0], STRATEGIES[2], STRATEGIES[5], STRATEGIES[8]]   # accuracy, f_beta 1, max_tpr 0.5, max_tnr 0.5
+
+
 def blocks(tier):
-  """work units (family, n, labels): each is the full set of distance vectors for one label vector"""
-  n_grid, n_perm = (5, 5) if tier == 'quick' else (7, 6)
+  """work units (family, n, labels, strategies): each is a full set of distance vectors for one label vector.
+  quick:    grid n = 2..5 (all 10 strategy settings), distinct distances n = 2..4 (all) and n = 5 (one setting per strategy)
+  thorough: grid n = 2..6, distinct distances n = 2..6, and n = 7 over the grid UP TO ORDER: every label vector x every
+            non-decreasing and every non-increasing distance vector (= every labelled multiset of 7 distances)"""
   out = []
-  for n in range(2, n_grid + 1):
-    out += [('grid', n, l) for l in label_vectors(n)]
-  for n in range(2, n_perm + 1):
-    out += [('perm', n, l) for l in label_vectors(n)]
+  if tier == 'quick':
+    for n in range(2, 6):
+      out += [('grid', n, l, STRATEGIES) for l in label_vectors(n)]
+    for n in range(2, 5):
+      out += [('perm', n, l, STRATEGIES) for l in label_vectors(n)]
+    out += [('perm', 5, l, ONE_PER_STRATEGY) for l in label_vectors(5)]
+  else:
+    for n in range(2, 7):
+      out += [('grid', n, l, STRATEGIES) for l in label_vectors(n)]
+    for n in range(2, 7):
+      out += [('perm', n, l, STRATEGIES) for l in label_vectors(n)]
+    out += [('sorted', 7, l, STRATEGIES) for l in label_vectors(7)]
   return out
 
 
 def distance_vectors(family, n):
   if family == 'grid':
     return itertools.product(GRID, repeat=n)
+  if family == 'sorted':
+    up = list(itertools.combinations_with_replacement(GRID, n))
+    return up + [u[::-1] for u in up if u[::-1] != u]
   return itertools.permutations(range(n))
 
 
@@ -153,14 +179,14 @@ def _estimator(cls='ITML'):
 
 def _work(block):
   """-> (n evaluations, {(clause, signature): [count, first input, first observed]}, stats {(strategy-desc, tied): [n, bad]})"""
-  family, n, labels = block
+  family, n, labels, strategies = block
   est = _estimator()
   found = {}
   stats = {}
   evals = 0
   for dists in distance_vectors(family, n):
     tied = has_ties(dists)
-    for strategy, kw in STRATEGIES:
+    for strategy, kw in strategies:
       evals += 1
       bad = check_instance(est, labels, dists, strategy, kw)
       st = stats.setdefault((strategy, tied), [0, 0])
@@ -288,9 +314,9 @@ def side_cases(ml, tier, seed):
 # ---------------------------------------------------------------------------------------------------------------
 def cases(tier, seed):
   ml = repo()
-  for family, n, labels in blocks(tier):
+  for family, n, labels, strategies in blocks(tier):
     for dists in distance_vectors(family, n):
-      for strategy, kw in STRATEGIES:
+      for strategy, kw in strategies:
         def thunk(labels=labels, dists=dists, strategy=strategy, kw=kw):
           bad = check_instance(_estimator(), labels, dists, strategy, kw)
           if bad:
@@ -344,36 +370,35 @@ def run(tier, seed):
         found[key]['count'] += 1
       else:
         found[key] = dict(clause='runtime/C16/%s' % bad[0], input=inp, observed=bad[1], signature=sig, count=1)
-  n_grid, n_perm = (5, 5) if tier == 'quick' else (7, 6)
+  if tier == 'quick':
+    enum = ('{0,1,2}^n for n = 2..5, and every permutation of n distinct distances for n = 2..4 (n = 5: one parameter setting per strategy)')
+    bound = 'n <= 5 pairs over a 3-value distance grid (exhaustive), n <= 5 pairs with distinct distances; 1-D identity metric'
+  else:
+    enum = ('{0,1,2}^n for n = 2..6, every permutation of n distinct distances for n = 2..6, and for n = 7 every non-decreasing / non-increasing '
+            'vector over {0,1,2} (every labelled multiset of 7 distances, not every ordering)')
+    bound = 'n <= 6 pairs over a 3-value distance grid (exhaustive), n = 7 up to ordering, n <= 6 pairs with distinct distances; 1-D identity metric'
   return dict(cases=n, distinct_nontrivial=distinct,
-              rule='bounded-exhaustive: every label vector in {-1,+1}^n with both labels x every distance vector in {0,1,2}^n (n = 2..%d) and x every '
-                   'permutation of n distinct distances (n = 2..%d), each under accuracy, f_beta (beta 0.5, 1, 2), max_tpr and max_tnr (min_rate 0, 0.5, 1); '
-                   'plus invalid strategy/min_rate/beta values to calibrate_threshold and to ITML/MMC/SDML.fit (with _fit wrapped to count calls), the n <= 3 grid on '
-                   'MMC and SDML, and real fits with calibration_params; every (instance, strategy, parameter) is distinct' % (n_grid, n_perm),
-              bound='n <= %d pairs over a 3-value distance grid, n <= %d pairs with distinct distances; 1-D identity metric' % (n_grid, n_perm),
+              rule='bounded-exhaustive: every label vector in {-1,+1}^n with both labels x every distance vector in %s, each under accuracy, f_beta '
+                   '(beta 0.5, 1, 2), max_tpr and max_tnr (min_rate 0, 0.5, 1); plus invalid strategy/min_rate/beta values to calibrate_threshold and to '
+                   'ITML/MMC/SDML.fit (with _fit wrapped to count calls), the n <= 3 grid on MMC and SDML, and real fits with calibration_params; '
+                   'every (instance, strategy, parameter) is distinct' % enum,
+              bound=bound,
               standin_samples=samples,
               per_strategy={'%s/%s' % (k[0], 'tied' if k[1] else 'distinct'): dict(evaluations=v[0], violations=v[1]) for k, v in sorted(stats.items())},
               violations=list(found.values()))
 
 
 def replay_clause(cid, fail, seed):
+  """first failing case for the clause: cid is 'runtime/C16/<clause>' or the id of a failed proof obligation"""
   want = cid.split('/')[2] if cid.startswith('runtime/C16/') else None
-  ml = repo()
-  if want is None or want.startswith('invalid'):
-    for desc, tags, fn, inp, sig in side_cases(ml, 'quick', seed):
-      if 'grid' in desc or 'random pairs' in desc:
-        continue
-      if want is None and not any(t.split('[')[0] == cid.split('[')[0] for t in tags):
-        continue
-      bad = fn()
-      if bad and (want is None or bad[0] == want):
-        return dict(failing_input=inp, observed=bad[1])
-    if want is not None:
-      return dict(note='no failing input among the quick stand-in cases')
+  target = cid.split('[')[0]
+  strategy = want[:-len('-optimal')] if want and want.endswith('-optimal') else None
   for desc, tags, thunk in cases('quick', seed):
-    if want is not None and not desc.split(' ')[-2 if False else 0] in ('grid', 'perm'):
+    if strategy is not None and (' %s ' % strategy) not in desc:
       continue
-    if want is not None and (' %s ' % want.replace('-optimal', '')) not in desc:
+    if want is not None and want.startswith('invalid') and not ('calibrate_threshold(' in desc or '.fit(valid' in desc):
+      continue
+    if want is None and target in (TAG_CAL, TAG_VAL) + tuple(TAG_FIT.values()) and target not in tags:
       continue
     bad = thunk()
     if bad and (want is None or bad['tag'] == want):
